@@ -8,7 +8,9 @@
 EXTENDS Integers, Sequences, TLC, Json
 CONSTANTS Depth, Credit, AutoAccept, DcShift, Side
 
-Alphabet == {"T1", "T2", "T3", "TAbort", "TContra", "Recv", "Acc", "AccAll", "SetCredit2", "Drain", "SFlow"}
+Alphabet == {"T1", "T2", "T3", "TAbort", "TContra", "Recv", "Acc", "AccAll", "SetCredit2", "Drain", "SFlow",
+             \* the application detaches the link without closing it and resumes it; the sender re-attaches stating the same initial delivery-count
+             "DetResume"}
 VARIABLES script
 Init == script = <<>>
 Next == Len(script) < Depth /\ \E e \in Alphabet : script' = Append(script, e)
@@ -52,6 +54,10 @@ Body(sc, i, k) ==
     [] e = "Acc" -> <<[e |-> "ADispose", l |-> "L2", d |-> <<0>>, state |-> "accept", all |-> FALSE]>> \o Body(sc, i + 1, k)
     [] e = "AccAll" -> <<[e |-> "ADispose", l |-> "L2", d |-> <<0, 1, 2>>, state |-> "accept", all |-> TRUE]>> \o Body(sc, i + 1, k)
     [] e = "SetCredit2" -> <<[e |-> "ASetCredit", l |-> "L2", n |-> 2]>> \o Body(sc, i + 1, k)
+    [] e = "DetResume" -> <<[e |-> "ADetach", l |-> "L2", closed |-> FALSE, keep |-> TRUE],
+                             [e |-> "PFrame", perf |-> "detach", ch |-> 3, needs_prev |-> TRUE, f |-> [h |-> 6, closed |-> FALSE, err |-> ""]],
+                             [e |-> "AResume", l |-> "L2"],
+                             [e |-> "PFrame", perf |-> "attach", ch |-> 3, needs_prev |-> TRUE, f |-> [name |-> "L2", h |-> 6, role |-> "s", snd |-> 2, rcv |-> 0, idc |-> 1000]]>> \o Body(sc, i + 1, k)
     [] e = "Drain" -> <<[e |-> "ADrain", l |-> "L2"]>> \o Body(sc, i + 1, k)
     \* the sender states its own view: its delivery-count and far more credit than it was ever given (the receiver's limit is what counts)
     [] e = "SFlow" -> <<[e |-> "PFrame", perf |-> "flow", ch |-> 3, ech |-> 0, f |-> [nii |-> [seen |-> 0], iw |-> 100, noi |-> k, ow |-> 100, h |-> 6, dc |-> 1000 + k, lc |-> 10, role |-> "s"]]>> \o Body(sc, i + 1, k)
